@@ -1,0 +1,28 @@
+//go:build verif
+// +build verif
+
+package massdb_v1
+
+import "github.com/massnetorg/mass-core/poc/pocutil"
+
+// Verification hooks (build tag "verif" only; see /verif/DESIGN.md §2.3). They add observation and gate points
+// to the plotting passes and let a test cap the plotting cache so that small bit lengths use several windows.
+
+// VerifCacheCap, when set, may lower the amount of cache memory a plotting window gets.
+var VerifCacheCap func(requiredMem uint64) uint64
+
+// VerifPoint, when set, is called at named points of the plotting passes; it may block.
+var VerifPoint func(mdb *MassDBV1, name string, a, b pocutil.PoCValue)
+
+func verifCacheCap(requiredMem uint64) uint64 {
+	if f := VerifCacheCap; f != nil {
+		return f(requiredMem)
+	}
+	return requiredMem
+}
+
+func verifPoint(mdb *MassDBV1, name string, a, b pocutil.PoCValue) {
+	if f := VerifPoint; f != nil {
+		f(mdb, name, a, b)
+	}
+}
